@@ -35,8 +35,9 @@ StartsIn(b) == Cardinality({l \in 1..Len(logins) : logins[l].b = b})
 Ck(v, m) == [val |-> v, mut |-> m]
 \* the proxy can decode a presented cookie iff it is unmodified and was signed under the name it is presented under
 NameMatches(v, s) == IF opt.perReq THEN v = s ELSE TRUE       \* fixed name: every CSRF cookie carries the same name
-\* (a tampered state nonce changes the derived per-request name, so nothing is found; with the fixed name it is still found)
-Decodes(k, s, stateOK) == k.mut = "none" /\ NameMatches(k.val, s) /\ (opt.perReq => stateOK)
+\* (the per-request name is derived from the first characters of the state nonce: tampering there ("head") means nothing is
+\*  found; tampering further on ("tail"), or any tampering with the fixed name, still finds the cookie)
+Decodes(k, s, sm) == k.mut = "none" /\ NameMatches(k.val, s) /\ (opt.perReq => sm # "head")
 
 \* ---- what the identity provider does at redemption ---------------------------------------------
 \* redemption of code c with the verifier taken from cookie k: the code must be unused and, with PKCE, the verifier must be c's
@@ -51,23 +52,23 @@ Req_C03_OnlyIf(s, cks, session) == session => \E i \in 1..Len(cks) : cks[i].mut 
 Req_C05_OnlyIf(c, s, session)   == session => (opt.skipNonce \/ (opt.idpNonce = "echo" /\ c = s))
 
 \* implementation (oauthproxy.go OAuthCallback): the first decodable cookie under the derived name is used
-FirstDecodable(cks, s, stateOK) == LET I == {i \in 1..Len(cks) : Decodes(cks[i], s, stateOK)} IN
+FirstDecodable(cks, s, sm) == LET I == {i \in 1..Len(cks) : Decodes(cks[i], s, sm)} IN
                           IF I = {} THEN 0 ELSE CHOOSE i \in I : \A j \in I : i <= j
-Impl_Session(s, cks, c, stateOK) ==
-    LET i == FirstDecodable(cks, s, stateOK) IN
-    /\ stateOK /\ i # 0
+Impl_Session(s, cks, c, sm) ==
+    LET i == FirstDecodable(cks, s, sm) IN
+    /\ sm = "none" /\ i # 0
     /\ Redeems(c, cks[i])
     /\ cks[i].val = s                      \* CheckOAuthState
     /\ NonceOK(c, cks[i])
 \* side effects of the implementation: the code is consumed once redemption is attempted with a decodable cookie;
 \* the used cookie is cleared in the response once redemption and enrichment succeeded
-Impl_Consumes(s, cks, c, stateOK) == LET i == FirstDecodable(cks, s, stateOK) IN i # 0 /\ c \notin used /\ (opt.pkce = "none" \/ cks[i].val = c)
-Impl_ClearsCookie(s, cks, c, stateOK) == Impl_Consumes(s, cks, c, stateOK)
+Impl_Consumes(s, cks, c, sm) == LET i == FirstDecodable(cks, s, sm) IN i # 0 /\ c \notin used /\ (opt.pkce = "none" \/ cks[i].val = c)
+Impl_ClearsCookie(s, cks, c, sm) == Impl_Consumes(s, cks, c, sm)
 
 \* the observation the harness must make: "set" / "refused"; ambiguous pairings (two cookies under one name, the
 \* foreign one first) are only held to the safety direction
-Expect(s, cks, c, stateOK, strict) ==
-    IF Impl_Session(s, cks, c, stateOK) THEN (IF strict THEN "set" ELSE "any")
+Expect(s, cks, c, sm, strict) ==
+    IF Impl_Session(s, cks, c, sm) THEN (IF strict THEN "set" ELSE "any")
     ELSE "refused"
 
 \* ---- actions -----------------------------------------------------------------------------------
@@ -89,15 +90,19 @@ Start(b) ==
 Held(b, s) == IF opt.perReq THEN (IF s \in jar[b] THEN <<Ck(s, "none")>> ELSE <<>>)
               ELSE (IF jar[b] = {} THEN <<>> ELSE <<Ck(CHOOSE v \in jar[b] : TRUE, "none")>>)
 
+Others == IF opt.perReq THEN 0 ELSE [any |-> TRUE]
 Record(kind, b, s, cks, c, stateMut, strict) ==
-    LET stateOK == stateMut = "none"
-        e == Expect(s, cks, c, stateOK, strict)
+    LET e == Expect(s, cks, c, stateMut, strict)
     IN [a |-> "callback",
-        args |-> [kind |-> kind, b |-> b, state |-> s, stateMut |-> stateMut, cookies |-> cks, code |-> c],
-        req |-> IF e = "set" THEN [session |-> "set", leak |-> FALSE, verifierOK |-> TRUE]
-                ELSE IF e = "refused" THEN [session |-> [not |-> "set"], leak |-> FALSE]
+        \* codeFresh and cookies are the model's view of the environment (IdP, browser jar) before the step: the harness
+        \* compares them with the real environment and cuts the behaviour (diverged) when they differ
+        args |-> [kind |-> kind, b |-> b, state |-> s, stateMut |-> stateMut, cookies |-> cks, code |-> c, codeFresh |-> c \notin used],
+        \* clearedOthers: CSRF cookies of OTHER logins that the response deletes from the browser; with per-request cookies
+        \* every outstanding login must stay completable whatever happens to this one, so that number must be 0
+        req |-> IF e = "set" THEN [session |-> "set", leak |-> FALSE, verifierOK |-> TRUE, clearedOthers |-> Others]
+                ELSE IF e = "refused" THEN [session |-> [not |-> "set"], leak |-> FALSE, clearedOthers |-> Others]
                 ELSE [leak |-> FALSE],
-        impl |-> [session |-> IF Impl_Session(s, cks, c, stateOK) THEN "set" ELSE "none"]]
+        impl |-> [session |-> IF Impl_Session(s, cks, c, stateMut) THEN "set" ELSE "none"]]
 
 \* honest completion of login l by its own browser
 Honest(l) ==
@@ -105,15 +110,15 @@ Honest(l) ==
     /\ l \in 1..Len(logins) /\ l \notin used /\ l \notin sess
     /\ LET b == Owner(l)  cks == Held(b, l) IN
        /\ hist' = Append(hist, Record("honest", b, l, cks, l, "none", TRUE))
-       /\ used' = IF Impl_Consumes(l, cks, l, TRUE) THEN used \cup {l} ELSE used
-       /\ sess' = IF Impl_Session(l, cks, l, TRUE) THEN sess \cup {l} ELSE sess
-       /\ jar' = IF Impl_ClearsCookie(l, cks, l, TRUE)
-                 THEN [jar EXCEPT ![b] = @ \ {cks[FirstDecodable(cks, l, TRUE)].val}] ELSE jar
+       /\ used' = IF Impl_Consumes(l, cks, l, "none") THEN used \cup {l} ELSE used
+       /\ sess' = IF Impl_Session(l, cks, l, "none") THEN sess \cup {l} ELSE sess
+       /\ jar' = IF Impl_ClearsCookie(l, cks, l, "none")
+                 THEN [jar EXCEPT ![b] = @ \ {cks[FirstDecodable(cks, l, "none")].val}] ELSE jar
     /\ UNCHANGED <<logins, adv, opt>>
 
 \* adversarial pairings for the state of login s; other = another login (same or other browser)
 AdvKinds == {"absent", "other_value", "tampered_value", "tampered_sig", "resigned", "expired_ts", "both_own_first", "both_other_first",
-             "state_tampered", "code_of_other", "victim_browser"}
+             "state_head", "state_tail", "code_of_other", "victim_browser"}
 AdvCookies(kind, s, o) ==
     CASE kind = "absent"           -> <<>>
       [] kind = "other_value"      -> <<Ck(o, "none")>>
@@ -124,7 +129,7 @@ AdvCookies(kind, s, o) ==
       [] kind = "both_own_first"   -> <<Ck(s, "none"), Ck(o, "none")>>
       [] kind = "both_other_first" -> <<Ck(o, "none"), Ck(s, "none")>>
       [] kind = "victim_browser"   -> Held(Owner(o), s)           \* the cookies another browser would send for this state
-      [] OTHER                     -> <<Ck(s, "none")>>           \* state_tampered, code_of_other: own cookie
+      [] OTHER                     -> <<Ck(s, "none")>>           \* state_head, state_tail, code_of_other: own cookie
 Adversarial(kind, s, o) ==
     /\ Len(hist) < MaxSteps /\ ~adv
     /\ s \in 1..Len(logins) /\ o \in 1..Len(logins) /\ s # o
@@ -133,11 +138,11 @@ Adversarial(kind, s, o) ==
     /\ (kind = "code_of_other" => o \notin used)
     /\ LET cks == AdvCookies(kind, s, o)
            c == IF kind = "code_of_other" THEN o ELSE s
-           sm == IF kind = "state_tampered" THEN "tampered" ELSE "none"
+           sm == IF kind = "state_head" THEN "head" ELSE IF kind = "state_tail" THEN "tail" ELSE "none"
            strict == kind \notin {"both_other_first", "both_own_first"}
        IN /\ hist' = Append(hist, Record(kind, Owner(s), s, cks, c, sm, strict))
-          /\ used' = IF Impl_Consumes(s, cks, c, sm = "none") THEN used \cup {c} ELSE used
-          /\ sess' = IF Impl_Session(s, cks, c, sm = "none") THEN sess \cup {s} ELSE sess
+          /\ used' = IF Impl_Consumes(s, cks, c, sm) THEN used \cup {c} ELSE used
+          /\ sess' = IF Impl_Session(s, cks, c, sm) THEN sess \cup {s} ELSE sess
     /\ adv' = TRUE
     /\ UNCHANGED <<logins, jar, opt>>       \* the crafted request does not come from a browser jar
 
@@ -153,10 +158,10 @@ C05_Nonce   == (Len(hist) > 0 /\ LastCb.a = "callback")
                  => Req_C05_OnlyIf(LastCb.args.code, LastCb.args.state, LastCb.impl.session = "set")
 \* converse (per-request cookies): every outstanding login whose cookie the browser still holds can be completed
 C03_Converse == opt.perReq /\ opt.idpNonce = "echo" =>
-                  \A l \in 1..Len(logins) : (l \notin used /\ l \in jar[Owner(l)]) => Impl_Session(l, Held(Owner(l), l), l, TRUE)
+                  \A l \in 1..Len(logins) : (l \notin used /\ l \in jar[Owner(l)]) => Impl_Session(l, Held(Owner(l), l), l, "none")
 \* without per-request cookies the last login started in a browser can be completed
 C03_ConverseFixed == ~opt.perReq /\ opt.idpNonce = "echo" =>
-                  \A l \in 1..Len(logins) : (l \notin used /\ jar[Owner(l)] = {l}) => Impl_Session(l, Held(Owner(l), l), l, TRUE)
+                  \A l \in 1..Len(logins) : (l \notin used /\ jar[Owner(l)] = {l}) => Impl_Session(l, Held(Owner(l), l), l, "none")
 
 CaseRec == [fam |-> "login", cfg |-> opt, in |-> [opt |-> opt, steps |-> Len(hist)], steps |-> hist]
 EmitVocab == JsonSerialize("vocab.json", Vocab)
